@@ -124,6 +124,9 @@ func (c *Client) handshake(ctx context.Context) error {
 
 	if err := wg.Wait(); err != nil {
 		if ctxErr := ctx.Err(); ctxErr != nil {
+			// Watchdog can observe end of handshake first, e.g. if write
+			// deadline is exceeded, so ensure that connection is closed.
+			_ = c.conn.Close()
 			// Parent context is canceled, propagating error to allow error
 			// traversal, like errors.Is(err, context.Canceled) assertion.
 			return errors.Wrap(multierr.Append(err, ctxErr), "parent context done")
